@@ -139,6 +139,18 @@ func TestC14(t *testing.T) {
 		vt := newVerTracker()
 		reuse := false
 		watching := false
+		// commits may fail (armed I/O faults): a backup must be valid whatever happened while its reader was open
+		if rapid.IntRange(0, 2).Draw(rt, "withfaults") == 0 {
+			cfg.Faults = 4
+		}
+		e.AllowCommitErr = true
+		e.AfterFailure = func(e *drv.Env, err error) *drv.Violation {
+			if v := failureOracle(e, err); v != nil {
+				return v
+			}
+			_, v := vt.record(e, "failed commit")
+			return v
+		}
 		e.AfterOpen = func(e *drv.Env) *drv.Violation { _, v := vt.record(e, "open"); return v }
 		e.AfterCommit = func(e *drv.Env, txid int) *drv.Violation {
 			if _, v := vt.record(e, "commit"); v != nil {
@@ -351,6 +363,8 @@ func replayC14(t *testing.T, d replayDoc) *drv.Violation {
 	// deterministic part: re-run the log; the op "backup" takes the copy of reader 1
 	e := drv.NewEnv("c14r")
 	defer e.Cleanup()
+	e.AllowCommitErr = true
+	e.AfterFailure = failureOracle
 	var pendingOps []drv.Op
 	for i, op := range d.Ops {
 		if op.Op == "backup" {
